@@ -6,13 +6,19 @@ import (
 	"encoding/hex"
 	"fmt"
 	"regexp"
+	"runtime"
 	"sort"
 	"strings"
 	"sync"
+	"sync/atomic"
 	"time"
 
 	"github.com/sdcio/data-server/pkg/cache"
 	"github.com/sdcio/data-server/pkg/config"
+	schemaClient "github.com/sdcio/data-server/pkg/datastore/clients/schema"
+	dschema "github.com/sdcio/data-server/pkg/schema"
+	sdcpb "github.com/sdcio/sdc-protos/sdcpb"
+	"google.golang.org/grpc"
 	"github.com/sdcio/data-server/pkg/tree"
 	"google.golang.org/protobuf/proto"
 
@@ -31,6 +37,28 @@ func normMsgs(m map[string][]string) []string {
 	}
 	sort.Strings(out)
 	return out
+}
+
+// slowSchema widens the window in which a schema lookup is in flight (free-running legs only): the caller yields the
+// processor a number of times before the lookup is answered.
+type slowSchema struct {
+	dschema.Client
+	slow bool
+	// lookups that were answered while another one was in flight (how often the window was met)
+	inFlight, overlapped atomic.Int32
+}
+
+func (s *slowSchema) GetSchema(ctx context.Context, in *sdcpb.GetSchemaRequest, opts ...grpc.CallOption) (*sdcpb.GetSchemaResponse, error) {
+	if s.slow {
+		if s.inFlight.Add(1) > 1 {
+			s.overlapped.Add(1)
+		}
+		defer s.inFlight.Add(-1)
+		for i := 0; i < 200; i++ {
+			runtime.Gosched()
+		}
+	}
+	return s.Client.GetSchema(ctx, in, opts...)
 }
 
 // runC17: the same history is applied to two worlds that differ only in Validation.DisableConcurrency; every
@@ -113,7 +141,20 @@ func scheduledDryRun(rc *sim.RunCtx, w *world.World, tx *TxSpec) (*TxResult, str
 func partialTreeValidate(rc *sim.RunCtx, w *world.World, tx *TxSpec, sequential bool, scheduled bool) ([]string, string, bool, error) {
 	ctx := context.Background()
 	tscc := tree.NewTreeCacheClient(world.DSName, w.Cache)
-	tc := tree.NewTreeContext(tscc, w.DS.VerifSchemaClientBound(), world.DSName)
+	scb := w.DS.VerifSchemaClientBound()
+	if !scheduled {
+		// free running: a bound schema client with a COLD index (a datastore right after its start) whose schema lookups take
+		// a while, so that validators that load the same leaf on demand meet each other's lookup in flight. Runtime monitoring
+		// (the interleaving is the Go scheduler's), like the rest of the free-running third.
+		ss := &slowSchema{Client: w.SchemaC, slow: !sequential}
+		scb = schemaClient.NewSchemaClientBound(w.SI.Cfg.GetSchema(), ss)
+		defer func() {
+			if ss.overlapped.Load() > 0 {
+				rc.Probe("free-schema-lookups-overlapped")
+			}
+		}()
+	}
+	tc := tree.NewTreeContext(tscc, scb, world.DSName)
 	if err := tscc.RefreshCaches(ctx); err != nil {
 		return nil, "", true, err
 	}
@@ -157,6 +198,23 @@ func partialTreeValidate(rc *sim.RunCtx, w *world.World, tx *TxSpec, sequential 
 		}
 		for _, e := range vr.WarningsStr() {
 			res = append(res, "W "+reHex.ReplaceAllString(e, "0x?"))
+		}
+		// "the data loaded during validation": every value the tree holds afterwards, with the kind of schema node its
+		// entry was built with (a lazily loaded leaf is the same leaf under every schedule)
+		for _, lv := range root.GetHighestPrecedence(false) {
+			kind := "no-schema"
+			if sch := lv.GetEntry().GetSchema(); sch != nil {
+				switch {
+				case sch.GetField() != nil:
+					kind = "leaf"
+				case sch.GetLeaflist() != nil:
+					kind = "leaf-list"
+				case sch.GetContainer() != nil:
+					kind = "container"
+				}
+			}
+			v, _ := lv.Update.Value()
+			res = append(res, fmt.Sprintf("T %s %s %s %s", strings.Join(lv.GetEntry().Path(), "/"), kind, lv.Owner(), v.String()))
 		}
 		sort.Strings(res)
 	}
